@@ -115,60 +115,72 @@ def run(ctx):
 
     # --- conformance half
     from .corpus import pmap
-    cases = build_cases(ctx, 100000 if thorough else 220, 60 if thorough else 10, 20000 if thorough else 700,
-                        400 if thorough else 16)
-    results = pmap(_trace_one_c02, [(s, d) for s, d, _ in cases], chunksize=16)
-    # driver-level validation
-    dverd = [None] * len(cases)
-    for d in DIALECTS:
-        idx = [i for i, c in enumerate(cases) if c[1] == d]
-        v = slycheck.validate_traces(ctx, slycheck.dialect_tables(ctx, d), [results[i]['trace'] for i in idx], 'trace_' + d)
-        for i, vv in zip(idx, v):
-            dverd[i] = vv
-    # call-level validation
-    trpath = ctx.work / 'calltraces.json'
-    dump_json(trpath, [r_['call'] for r_ in results])
-    tr = ctx.tlc('ParseSqlTrace', workers=None, env={'VERIF_TRACES': trpath}, name='calltrace')
-    if not tr.ok:
-        raise MachineryError('ParseSqlTrace failed: %s' % tr.errors[:3])
-    cverd = [None] * len(cases)
-    for item in tr.prints('ACC'):
-        cverd[item[0] - 1] = (item[1], item[2])
-
+    cases = build_cases(ctx, 2000 if thorough else 220, 30 if thorough else 10, 6000 if thorough else 700,
+                        150 if thorough else 16)
+    all_cases = cases
     outcomes = {}
-    for (sql, d, kind), res, dv, cv in zip(cases, results, dverd, cverd):
-        outcomes[res['final'].split(':')[0]] = outcomes.get(res['final'].split(':')[0], 0) + 1
-        fin = res['final']
-        bad = None
-        if cv is None:
-            bad = 'call trace is not a ParseSql behaviour (final outcome %s)' % fin
-        elif 'OutcomeAllowed' in cv[1] or cv[1]:
-            bad = 'ParseSql invariant(s) %s violated (final outcome %s)' % (sorted(cv[1]), fin)
-        if dv is not None and 'OutcomeAllowed' in dv[1]:
-            bad = (bad or '') + ' driver run ended in an internal error'
-        if fin not in ('tree', 'ParsingException', 'LexError') and bad is None:
-            bad = 'outcome %s' % fin
-        # step budget: a terminating call uses a number of driver events linear in the input
-        budget = 50 * (res['n_tokens'] + 2) * (1 + 2 * 19)
-        if res['n_events_all'] > budget:
-            bad = (bad or '') + ' step budget exceeded (%d events for %d tokens)' % (res['n_events_all'], res['n_tokens'])
-        if bad:
-            if fin in ('tree', 'ParsingException', 'LexError') and cv is None:
-                sig = 'call-trace-rejected:%s' % d
-            else:
-                sig = signature(ctx, sql, d, res)
-            ctx.violation(sig, bad + ' -- ' + res['msg'][:200], {'sql': sql, 'dialect': d, 'kind': kind, 'final': fin,
-                                                               'call_events': res['call']['events'][-12:]})
-        if dv is None:
-            ctx.cov['drift'] = ctx.cov.get('drift', 0) + 1
-    ctx.cov['traces_validated_against_impl'] += sum(1 for v in dverd if v is not None) + sum(1 for v in cverd if v is not None) + n_clause
+    n_valid = 0
+    samples = []
+    BATCH = 30000      # bounds memory: driver traces of one batch are validated and dropped before the next is recorded
+    for b0 in range(0, len(all_cases), BATCH):
+        cases = all_cases[b0:b0 + BATCH]
+        bi = b0 // BATCH
+        results = pmap(_trace_one_c02, [(s, d) for s, d, _ in cases], chunksize=16)
+        # driver-level validation
+        dverd = [None] * len(cases)
+        for d in DIALECTS:
+            idx = [i for i, c in enumerate(cases) if c[1] == d]
+            v = slycheck.validate_traces(ctx, slycheck.dialect_tables(ctx, d), [results[i]['trace'] for i in idx], 'trace_%s_%d' % (d, bi))
+            for i, vv in zip(idx, v):
+                dverd[i] = vv
+        # call-level validation
+        trpath = ctx.work / ('calltraces_%d.json' % bi)
+        dump_json(trpath, [r_['call'] for r_ in results])
+        tr = ctx.tlc('ParseSqlTrace', workers=None, env={'VERIF_TRACES': trpath}, name='calltrace_%d' % bi)
+        if not tr.ok:
+            raise MachineryError('ParseSqlTrace failed: %s' % tr.errors[:3])
+        cverd = [None] * len(cases)
+        for item in tr.prints('ACC'):
+            cverd[item[0] - 1] = (item[1], item[2])
+
+        for (sql, d, kind), res, dv, cv in zip(cases, results, dverd, cverd):
+            outcomes[res['final'].split(':')[0]] = outcomes.get(res['final'].split(':')[0], 0) + 1
+            fin = res['final']
+            bad = None
+            if cv is None:
+                bad = 'call trace is not a ParseSql behaviour (final outcome %s)' % fin
+            elif 'OutcomeAllowed' in cv[1] or cv[1]:
+                bad = 'ParseSql invariant(s) %s violated (final outcome %s)' % (sorted(cv[1]), fin)
+            if dv is not None and 'OutcomeAllowed' in dv[1]:
+                bad = (bad or '') + ' driver run ended in an internal error'
+            if fin not in ('tree', 'ParsingException', 'LexError') and bad is None:
+                bad = 'outcome %s' % fin
+            # step budget: a terminating call uses a number of driver events linear in the input
+            budget = 50 * (res['n_tokens'] + 2) * (1 + 2 * 19)
+            if res['n_events_all'] > budget:
+                bad = (bad or '') + ' step budget exceeded (%d events for %d tokens)' % (res['n_events_all'], res['n_tokens'])
+            if bad:
+                if fin in ('tree', 'ParsingException', 'LexError') and cv is None:
+                    sig = 'call-trace-rejected:%s' % d
+                else:
+                    sig = signature(ctx, sql, d, res)
+                ctx.violation(sig, bad + ' -- ' + res['msg'][:200], {'sql': sql, 'dialect': d, 'kind': kind, 'final': fin,
+                                                                   'call_events': res['call']['events'][-12:]})
+            if dv is None:
+                ctx.cov['drift'] = ctx.cov.get('drift', 0) + 1
+        n_valid += sum(1 for v in dverd if v is not None) + sum(1 for v in cverd if v is not None)
+        samples += list(zip(cases, results))[::max(1, len(all_cases) // 6)]
+        for f_ in ctx.work.glob('trace_*_traces.json'):
+            f_.unlink()
+    cases = all_cases
+    ctx.cov['traces_validated_against_impl'] += n_valid + n_clause
     ctx.cov['evaluations'] = len(cases)
     ctx.cov['final_outcomes'] = outcomes
     kinds = {}
     for c in cases:
         kinds[c[2]] = kinds.get(c[2], 0) + 1
     ctx.cov['case_kinds'] = kinds
-    for (sql, d, kind), res in list(zip(cases, results))[::max(1, len(cases) // 6)]:
+    for (sql, d, kind), res in samples[:8]:
         ctx.sample({'sql': sql[:160], 'dialect': d, 'kind': kind, 'final': res['final'],
                     'call_events': [e['e'] + (':' + e['o'] if e['o'] else '') for e in res['call']['events']]})
     ctx.assumptions += ['"reasonably sized input": statements of the test corpus and mutants thereof (<= 3000 chars)',
